@@ -101,6 +101,11 @@ pub fn solve_instance(input_data: serde_json::Value) -> serde_json::Value {
             .solve(start_transition)
             .unwrap()
             .unwrap_transition();
+        #[cfg(rssched_verif)]
+        solution::verif::record_event(serde_json::json!({"ev": "optres",
+            "ty": network.vehicle_types().get(vehicle_type).unwrap().id(),
+            "cyc": improved_transition.cycles_iter()
+                .map(|c| c.iter().map(|v| v.to_string()).collect::<Vec<_>>()).collect::<Vec<_>>()}));
 
         optimized_transitions.insert(vehicle_type, improved_transition);
     }
